@@ -200,3 +200,17 @@ Theorem C03_commit_is_the_translated_C :
     Some (None, if Nat.eqb (c_at (w_c w)) (c_psize (w_c w)) then close_cb d w else w).
 Proof. exact skel_commit. Qed.
 Print Assumptions C03_commit_is_the_translated_C.
+
+(* ------------------------------------------------------------------ tie by translation: the tracing function *)
+(* The public tracing function <prefix><dst>_trace_<ert> as REGENERATED from the template text of
+   barectf.c.j2 on every run (tools/c2coq.py -> Gen/CSkelFuns.v fn_trace), run by the semantics of
+   Tracer/CSkelTrace.v, is Model.trace_fn for every data stream type, event record type, argument
+   list and world: the order of its steps - size, reservation, size again after a packet switch and the COUNTED discard when the record no longer fits, serialization, commit -
+   is what the theorems of this file speak about.  An edit of that template breaks this theorem or
+   the fail-closed translator before any differential run. *)
+From BT.Tracer Require Import CSkel CSkelTrace CSkelTraceProofs.
+From BT.Gen Require Import CSkelFuns.
+Theorem C03_trace_fn_is_the_translated_C :
+  forall d e args w, run_trace d skel_funs e args fn_trace w = Some (trace_fn d e args w).
+Proof. exact skel_trace. Qed.
+Print Assumptions C03_trace_fn_is_the_translated_C.
